@@ -18,6 +18,8 @@ THEOREMS = [
     "C11_logic_commutes", "C11_logic_associates_bool", "C11_logic_associates_int", "C11_not_flip_involutive",
     "C11_de_morgan", "C11_flip_is_complement", "C11_shift_total", "C11_shift_count_out_of_range",
     "C11_shift_zero_is_identity",
+    "C11_concat_associates", "C11_concat_unit", "C11_int_add_mul_commute", "C11_int_add_mul_associate",
+    "C11_int_sub_self_add_zero",
 ]
 
 BINOPS = ["+", "-", "*", "/", "%", "&", "|", "<", ">", "<=", ">=", "==", "!=", "<<", ">>"]
